@@ -33,7 +33,12 @@ type DecorCase struct {
 		H, S, Ms      int64
 		Total, Cur    int64
 		Ops           []int64 `json:"ops"`
+		Durs          []int64 `json:"durs"`
 	} `json:"c"`
+	Avg []struct {
+		Num int64 `json:"num"`
+		Den int64 `json:"den"`
+	} `json:"avg"`
 	Outs []int64 `json:"outs"`
 	Adds []struct {
 		Num int64 `json:"num"`
@@ -147,6 +152,35 @@ func checkMedian(c *DecorCase) string {
 		}
 		if msg := widthOK(eta, decor.Statistics{Total: 10, Current: 9}); msg != "" {
 			return msg
+		}
+	}
+	return ""
+}
+
+// checkAvg: the EWMA decorators with the default age, fed one item per sample; after every sample the ETA for one
+// remaining item and the speed must read back to the specification's average (the ETA is printed in whole seconds).
+func checkAvg(c *DecorCase) string {
+	eta := decor.EwmaETA(decor.ET_STYLE_GO, 0)
+	speed := decor.EwmaSpeed(0, "%.6f", 0)
+	for k, d := range c.C.Durs {
+		for _, dd := range []decor.Decorator{eta, speed} {
+			dd.(decor.EwmaDecorator).EwmaUpdate(1, time.Duration(d)*time.Second)
+		}
+		want := float64(c.Avg[k].Num) / float64(c.Avg[k].Den) // seconds per item
+		s, _ := eta.Decor(decor.Statistics{Total: 10, Current: 9})
+		got, err := time.ParseDuration(s)
+		if err != nil || got.Seconds() > want+1e-6 || got.Seconds() < want-1-1e-6 {
+			return fmt.Sprintf("after %d samples %v the ETA for one item prints %q, the average is %.4fs", k+1, c.C.Durs[:k+1], s, want)
+		}
+		s2, _ := speed.Decor(decor.Statistics{Total: 10, Current: 9})
+		sp, err := strconv.ParseFloat(strings.TrimSuffix(strings.TrimSpace(s2), "/s"), 64)
+		if err != nil || math.Abs(sp-1/want) > 1e-4 {
+			return fmt.Sprintf("after %d samples %v the speed prints %q, the average is %.6f items/s", k+1, c.C.Durs[:k+1], s2, 1/want)
+		}
+		for _, dd := range []decor.Decorator{eta, speed} {
+			if m := widthOK(dd, decor.Statistics{Total: 10, Current: 9}); m != "" {
+				return m
+			}
 		}
 	}
 	return ""
@@ -379,6 +413,8 @@ func TestDecorCases(t *testing.T) {
 				msg = checkPct(&c)
 			case "median":
 				msg = checkMedian(&c)
+			case "avg":
+				msg = checkAvg(&c)
 			}
 		}()
 		if msg != "" {
